@@ -3,7 +3,8 @@
 Decided (host is little-endian): G - from_le / to_le are the identity, from_be / to_be reverse the byte order of the
 pattern (signed forms act on the bit pattern), on pattern representatives; with the nightly feature (thorough tier)
 to_ne_bytes == to_le_bytes and from_ne_bytes == from_le_bytes and the signed *_bytes forms delegate to the unsigned
-ones on the same pattern (F).
+ones on the same pattern (F); T - from_be_slice / from_le_slice never decide `None` from the length of the slice alone
+(a slice of any length is accepted when its excess bytes are padding).
 Not decided: from_be_slice / from_le_slice decoding (length-dependent loops: whole digits, partial digit, excess
 digits, sign digit), the *_bytes conversions themselves, big-endian targets (not compiled here).
 """
@@ -40,6 +41,8 @@ def obligations(ctx, tier):
             from .c10 import B_
             for m in ("from_be_slice", "from_le_slice"):
                 out += core.g_row(K, PROP, inh(A, m), [("empty", lambda W: {0: B_([])}, (lambda A=A: lambda W, env: ("some", W.wrap(A, 0)))())])
+                # padding bytes of any number are accepted: no `None` may be decided from the length of the slice alone
+                out.append(core.t_row(K, PROP, inh(A, m)))
             if cfg in ("Kdn", "Krn"):
                 U = A if not is_signed(A) else TWIN[A]
                 out.append(core.f_row(K, PROP, inh(A, "to_ne_bytes"), call(inh(A, "to_le_bytes"), P(0))))
